@@ -152,40 +152,40 @@ Qed.
 Definition stdQ {A} (Qok : mstate -> A -> Prop) : mstate -> res A -> Prop :=
   fun m r => match r with Ok a => Qok m a | _ => io_only_from_reader m r end.
 
-Notation OB B := (obeys exact_reads (mp4_mstep B)).
+Notation OB B F := (obeys exact_reads (mp4_mstep B F)).
 
-Lemma ob_bind {A C} B (p : prog A) (f : A -> prog C) (Q2 : mstate -> C -> Prop) m :
-  OB B (stdQ (fun m' a => OB B (stdQ Q2) m' (f a))) m p -> OB B (stdQ Q2) m (pbind p f).
+Lemma ob_bind {A C} B F (p : prog A) (f : A -> prog C) (Q2 : mstate -> C -> Prop) m :
+  OB B F (stdQ (fun m' a => OB B F (stdQ Q2) m' (f a))) m p -> OB B F (stdQ Q2) m (pbind p f).
 Proof.
   intros H. apply obeys_bind. eapply obeys_weaken; [|exact H]. intros m' r. destruct r; cbn [stdQ bindQ]; auto.
 Qed.
 
-Lemma ob_lift {A} B m (r : res A) (Qok : mstate -> A -> Prop) :
-  no_io r -> (forall a, r = Ok a -> Qok m a) -> OB B (stdQ Qok) m (lift r).
+Lemma ob_lift {A} B F m (r : res A) (Qok : mstate -> A -> Prop) :
+  no_io r -> (forall a, r = Ok a -> Qok m a) -> OB B F (stdQ Qok) m (lift r).
 Proof.
   intros Hn H. unfold lift. cbn [obeys]. destruct r; cbn [stdQ io_only_from_reader]; auto. exfalso. now apply (Hn e).
 Qed.
 
-Lemma ob_ret_ok {A} B m (a : A) (Qok : mstate -> A -> Prop) : Qok m a -> OB B (stdQ Qok) m (Ret (Ok a)).
+Lemma ob_ret_ok {A} B F m (a : A) (Qok : mstate -> A -> Prop) : Qok m a -> OB B F (stdQ Qok) m (Ret (Ok a)).
 Proof. intros H. exact H. Qed.
-Lemma ob_ret_parse {A} B m e (Qok : mstate -> A -> Prop) : OB B (stdQ Qok) m (Ret (EParse e)).
+Lemma ob_ret_parse {A} B F m e (Qok : mstate -> A -> Prop) : OB B F (stdQ Qok) m (Ret (EParse e)).
 Proof. exact Logic.I. Qed.
-Lemma ob_ret_panic {A} B m e (Qok : mstate -> A -> Prop) : OB B (stdQ Qok) m (Ret (Panic e)).
+Lemma ob_ret_panic {A} B F m e (Qok : mstate -> A -> Prop) : OB B F (stdQ Qok) m (Ret (Panic e)).
 Proof. exact Logic.I. Qed.
-Lemma ob_ret_fuel {A} B m (Qok : mstate -> A -> Prop) : OB B (stdQ Qok) m (Ret OutOfFuel).
+Lemma ob_ret_fuel {A} B F m (Qok : mstate -> A -> Prop) : OB B F (stdQ Qok) m (Ret OutOfFuel).
 Proof. exact Logic.I. Qed.
 
 (* the error answer of a site: Io e, or TruncatedBox at a map_eof site *)
-Lemma io_err_plain {A} (Qok : mstate -> A -> Prop) B o e : plain_site o -> OB B (stdQ Qok) (MErr o e) (io_err None e).
+Lemma io_err_plain {A} (Qok : mstate -> A -> Prop) B F o e : plain_site o -> OB B F (stdQ Qok) (MErr o e) (io_err None e).
 Proof. intros Hp. unfold io_err. destruct e; cbn [obeys stdQ io_only_from_reader]; exists o; split; auto. Qed.
-Lemma io_err_eof {A} (Qok : mstate -> A -> Prop) B o e pe : OB B (stdQ Qok) (MErr o e) (io_err (Some pe) e).
+Lemma io_err_eof {A} (Qok : mstate -> A -> Prop) B F o e pe : OB B F (stdQ Qok) (MErr o e) (io_err (Some pe) e).
 Proof.
   unfold io_err. destruct e; cbn [obeys stdQ io_only_from_reader]; try exact Logic.I; exists o; split; auto; discriminate.
 Qed.
 
 (* ---- the wrappers, per monitor state *)
-Lemma ob_fill {B} (Qok : mstate -> bool -> Prop) :
-  Qok (MEnd 0) true -> Qok MIter false -> OB B (stdQ Qok) MHead do_fill_empty.
+Lemma ob_fill {B F} (Qok : mstate -> bool -> Prop) :
+  Qok (MEnd 0) true -> Qok MIter false -> OB B F (stdQ Qok) MHead do_fill_empty.
 Proof.
   intros H1 H2. unfold do_fill_empty. cbn [obeys]. intros a _. cbn [mp4_mstep].
   destruct a as [b|l| |n|e]; cbn [on_bool]; eexists; (split; [reflexivity|]); try exact Logic.I.
@@ -193,34 +193,34 @@ Proof.
   - apply io_err_plain. now left.
 Qed.
 
-Lemma ob_pos_iter {B} (Qok : mstate -> N -> Prop) :
-  (forall start, Qok (MHdr start 0) start) -> OB B (stdQ Qok) MIter do_pos.
+Lemma ob_pos_iter {B F} (Qok : mstate -> N -> Prop) :
+  (forall start, Qok (MHdr start 0) start) -> OB B F (stdQ Qok) MIter do_pos.
 Proof.
   intros H. unfold do_pos. cbn [obeys]. intros a _. cbn [mp4_mstep].
   destruct a as [b|l| |n|e]; cbn [on_num]; eexists; (split; [reflexivity|]); try exact Logic.I.
   - apply H.
   - apply io_err_plain. right. now left.
 Qed.
-Lemma ob_pos_lenq {B} (Qok : mstate -> N -> Prop) :
-  (forall p, Qok MBody p) -> OB B (stdQ Qok) MLenQ do_pos.
+Lemma ob_pos_lenq {B F} (Qok : mstate -> N -> Prop) :
+  (forall p, Qok MBody p) -> OB B F (stdQ Qok) MLenQ do_pos.
 Proof.
   intros H. unfold do_pos. cbn [obeys]. intros a _. cbn [mp4_mstep].
   destruct a as [b|l| |n|e]; cbn [on_num]; eexists; (split; [reflexivity|]); try exact Logic.I.
   - apply H.
   - apply io_err_plain. right. now left.
 Qed.
-Lemma ob_pos_end {B} (Qok : mstate -> N -> Prop) :
-  (forall p, Qok (MEnd 1) p) -> OB B (stdQ Qok) (MEnd 0) do_pos.
+Lemma ob_pos_end {B F} (Qok : mstate -> N -> Prop) :
+  (forall p, Qok (MEnd 1) p) -> OB B F (stdQ Qok) (MEnd 0) do_pos.
 Proof.
-  intros H. unfold do_pos. cbn [obeys]. intros a _. change (mp4_mstep B (MEnd 0) OPos a) with (on_num OPos a (fun _ => MEnd 1)).
+  intros H. unfold do_pos. cbn [obeys]. intros a _. change (mp4_mstep B F (MEnd 0) OPos a) with (on_num OPos a (fun _ => MEnd 1)).
   destruct a as [b|l| |n|e]; cbn [on_num]; eexists; (split; [reflexivity|]); try exact Logic.I.
   - apply H.
   - apply io_err_plain. right. now left.
 Qed.
-Lemma ob_len_end {B} (Qok : mstate -> N -> Prop) :
-  (forall n, Qok (MEnd 2) n) -> OB B (stdQ Qok) (MEnd 1) do_len.
+Lemma ob_len_end {B F} (Qok : mstate -> N -> Prop) :
+  (forall n, Qok (MEnd 2) n) -> OB B F (stdQ Qok) (MEnd 1) do_len.
 Proof.
-  intros H. unfold do_len. cbn [obeys]. intros a _. change (mp4_mstep B (MEnd 1) OLen a) with (on_num OLen a (fun _ => MEnd 2)).
+  intros H. unfold do_len. cbn [obeys]. intros a _. change (mp4_mstep B F (MEnd 1) OLen a) with (on_num OLen a (fun _ => MEnd 2)).
   destruct a as [b|l| |n|e]; cbn [on_num]; eexists; (split; [reflexivity|]); try exact Logic.I.
   - apply H.
   - apply io_err_plain. right. now right.
@@ -229,67 +229,68 @@ Qed.
 (* a state in which the header is complete enough for the payload to be dealt with *)
 Definition body_ready (m : mstate) : Prop := exists start got, m = MHdr start got /\ 8 <= got.
 
-Lemma mstep_body_ready B m o a : body_ready m -> (forall n, o <> OReadExact n) -> mp4_mstep B m o a = body_step B false o a.
+Lemma mstep_body_ready B F m o a : body_ready m -> (forall n, o <> OReadExact n) -> mp4_mstep B F m o a = body_step B false o a.
 Proof.
   intros (start & got & -> & Hg) Ho. cbn [mp4_mstep].
   destruct o; try (destruct (N.leb_spec 8 got); [reflexivity | lia]). now elim (Ho n).
 Qed.
 
-Lemma ob_len_hdr {B} m (Qok : mstate -> N -> Prop) :
-  body_ready m -> (forall n, Qok MLenQ n) -> OB B (stdQ Qok) m do_len.
+Lemma ob_len_hdr {B F} m (Qok : mstate -> N -> Prop) :
+  body_ready m -> (forall n, Qok MLenQ n) -> OB B F (stdQ Qok) m do_len.
 Proof.
   intros Hb H. unfold do_len. cbn [obeys]. intros a _. rewrite mstep_body_ready by (auto; discriminate). cbn [body_step].
   destruct a as [b|l| |n|e]; cbn [on_num]; eexists; (split; [reflexivity|]); try exact Logic.I.
   - apply H.
   - apply io_err_plain. right. now right.
 Qed.
-Lemma ob_skip_hdr {B} m n (Qok : mstate -> unit -> Prop) :
-  body_ready m -> Qok MHead tt -> OB B (stdQ Qok) m (do_skip n (Some TruncatedBox)).
+Lemma ob_skip_hdr {B F} m n (Qok : mstate -> unit -> Prop) :
+  body_ready m -> Qok MHead tt -> OB B F (stdQ Qok) m (do_skip n (Some TruncatedBox)).
 Proof.
   intros Hb H. unfold do_skip. cbn [obeys]. intros a _. rewrite mstep_body_ready by (auto; discriminate). cbn [body_step].
   destruct a as [b|l| |k|e]; cbn [on_unit]; eexists; (split; [reflexivity|]); try exact Logic.I.
   - exact H.
   - apply io_err_eof.
 Qed.
-Lemma ob_skip_body {B} n (Qok : mstate -> unit -> Prop) :
-  Qok MHead tt -> OB B (stdQ Qok) MBody (do_skip n (Some TruncatedBox)).
+Lemma ob_skip_body {B F} n (Qok : mstate -> unit -> Prop) :
+  Qok MHead tt -> OB B F (stdQ Qok) MBody (do_skip n (Some TruncatedBox)).
 Proof.
   intros H. unfold do_skip. cbn [obeys]. intros a _. cbn [mp4_mstep body_step].
   destruct a as [b|l| |k|e]; cbn [on_unit]; eexists; (split; [reflexivity|]); try exact Logic.I.
   - exact H.
   - apply io_err_eof.
 Qed.
-Lemma ob_alloc_hdr {B} m n (Qok : mstate -> unit -> Prop) :
-  body_ready m -> n <= B -> Qok (MAlloc n) tt -> OB B (stdQ Qok) m (do_alloc n).
+Lemma ob_alloc_hdr {B F} m n (Qok : mstate -> unit -> Prop) :
+  body_ready m -> n <= B -> Qok (MAlloc n) tt -> OB B F (stdQ Qok) m (do_alloc n).
 Proof.
   intros Hb Hn H. unfold do_alloc. cbn [obeys]. intros a _. rewrite mstep_body_ready by (auto; discriminate). cbn [body_step].
   destruct (N.leb_spec n B); [|lia]. eexists; split; [reflexivity | exact H].
 Qed.
-Lemma ob_alloc_body {B} n (Qok : mstate -> unit -> Prop) :
-  n <= B -> Qok (MAlloc n) tt -> OB B (stdQ Qok) MBody (do_alloc n).
+Lemma ob_alloc_body {B F} n (Qok : mstate -> unit -> Prop) :
+  n <= B -> Qok (MAlloc n) tt -> OB B F (stdQ Qok) MBody (do_alloc n).
 Proof.
   intros Hn H. unfold do_alloc. cbn [obeys]. intros a _. cbn [mp4_mstep body_step].
   destruct (N.leb_spec n B); [|lia]. eexists; split; [reflexivity | exact H].
 Qed.
-Lemma ob_alloc_end {B} n (Qok : mstate -> unit -> Prop) :
-  Qok MDone tt -> OB B (stdQ Qok) (MEnd 2) (do_alloc n).
+Lemma ob_alloc_end {B F} n (Qok : mstate -> unit -> Prop) :
+  n <= F -> Qok MDone tt -> OB B F (stdQ Qok) (MEnd 2) (do_alloc n).
 Proof.
-  intros H. unfold do_alloc. cbn [obeys]. intros a _. exists MDone. split; [reflexivity | exact H].
+  intros Hn H. unfold do_alloc. cbn [obeys]. intros a _. exists MDone. split; [|exact H].
+  cbn [mp4_mstep]. destruct (N.leb_spec n F); [reflexivity | lia].
 Qed.
 
-Lemma ob_read_hdr {B} start got n (Qok : mstate -> bytes -> Prop) :
+Lemma ob_read_hdr {B F} start got n (Qok : mstate -> bytes -> Prop) :
   hdr_read_ok got n = true ->
   (forall l, N.of_nat (length l) = n -> Qok (MHdr start (got + n)) l) ->
-  OB B (stdQ Qok) (MHdr start got) (do_read_exact n (Some TruncatedBox)).
+  OB B F (stdQ Qok) (MHdr start got) (do_read_exact n (Some TruncatedBox)).
 Proof.
   intros Hok H. unfold do_read_exact. cbn [obeys]. intros a Ha. cbn [mp4_mstep]. rewrite Hok.
   destruct a as [b|l| |k|e]; cbn [on_bytes]; eexists; (split; [reflexivity|]); try exact Logic.I.
   - apply H. exact Ha.
   - apply io_err_eof.
 Qed.
-Lemma ob_read_alloc {B} n (Qok : mstate -> bytes -> Prop) :
+Lemma ob_read_alloc {B F} n (Qok : mstate -> bytes -> Prop) :
   (forall l, N.of_nat (length l) = n -> Qok MHead l) ->
-  OB B (stdQ Qok) (MAlloc n) (do_read_exact n (Some TruncatedBox)).
+  OB B F (stdQ Qok) (MAlloc n) (do_read_exact n (Some TruncatedBox)).
 Proof.
   intros H. unfold do_read_exact. cbn [obeys]. intros a Ha. cbn [mp4_mstep]. rewrite N.eqb_refl.
   destruct a as [b|l| |k|e]; cbn [on_bytes]; eexists; (split; [reflexivity|]); try exact Logic.I.
@@ -303,12 +304,12 @@ Ltac ob_pure := apply ob_bind; apply ob_lift;
           | apply no_io_moov_check | apply no_io_with_data_size | apply no_io_overwrite_size ]
   | intros ? _; cbv beta ].
 
-Lemma ob_read_header {B} start (Qok : mstate -> header -> Prop) :
-  (forall h m, body_ready m -> Qok m h) -> OB B (stdQ Qok) (MHdr start 0) read_header.
+Lemma ob_read_header {B F} start (Qok : mstate -> header -> Prop) :
+  (forall h m, body_ready m -> Qok m h) -> OB B F (stdQ Qok) (MHdr start 0) read_header.
 Proof.
   intros H. unfold read_header.
   assert (Hfin : forall got size name, 8 <= got -> (got = 8 \/ got = 16) ->
-            OB B (stdQ Qok) (MHdr start got)
+            OB B F (stdQ Qok) (MHdr start got)
                (if bytes_eqb name UUID4
                 then u <~ do_read_exact 16 (Some TruncatedBox);; Ret (Ok {| htype := Uuid u; hsize := size |})
                 else Ret (Ok {| htype := FourCC name; hsize := size |}))).
@@ -326,8 +327,8 @@ Proof.
   - apply ob_ret_ok. apply Hfin; [lia | left; lia].
 Qed.
 
-Lemma ob_data_size {B} m h (Qok : mstate -> N -> Prop) :
-  body_ready m -> (forall n, Qok m n) -> (forall n, Qok MBody n) -> OB B (stdQ Qok) m (data_size h).
+Lemma ob_data_size {B F} m h (Qok : mstate -> N -> Prop) :
+  body_ready m -> (forall n, Qok m n) -> (forall n, Qok MBody n) -> OB B F (stdQ Qok) m (data_size h).
 Proof.
   intros Hb H1 H2. unfold data_size. ob_pure. destruct a as [n|].
   - apply ob_ret_ok. apply H1.
@@ -335,16 +336,16 @@ Proof.
     destruct (len <? pos); [apply ob_ret_panic | apply ob_ret_ok; apply H2].
 Qed.
 
-Lemma ob_skip_box {B} m h (Qok : mstate -> N -> Prop) :
-  body_ready m -> (forall n, Qok MHead n) -> OB B (stdQ Qok) m (skip_box h).
+Lemma ob_skip_box {B F} m h (Qok : mstate -> N -> Prop) :
+  body_ready m -> (forall n, Qok MHead n) -> OB B F (stdQ Qok) m (skip_box h).
 Proof.
   intros Hb H. unfold skip_box. apply ob_bind. apply ob_data_size; [exact Hb| |]; intros n; cbv beta.
   - apply ob_bind. apply ob_skip_hdr; [exact Hb|]. apply ob_ret_ok. apply H.
   - apply ob_bind. apply ob_skip_body. apply ob_ret_ok. apply H.
 Qed.
 
-Lemma ob_read_data {B} m h mx (Qok : mstate -> bytes -> Prop) :
-  body_ready m -> mx <= B -> (forall l, N.of_nat (length l) <= mx -> Qok MHead l) -> OB B (stdQ Qok) m (read_data h mx).
+Lemma ob_read_data {B F} m h mx (Qok : mstate -> bytes -> Prop) :
+  body_ready m -> mx <= B -> (forall l, N.of_nat (length l) <= mx -> Qok MHead l) -> OB B F (stdQ Qok) m (read_data h mx).
 Proof.
   intros Hb Hmx H. unfold read_data. apply ob_bind. apply ob_data_size; [exact Hb| |]; intros n; cbv beta.
   - destruct (N.ltb_spec mx n); [apply ob_ret_parse|]. apply ob_bind. apply ob_alloc_hdr; [exact Hb | lia |].
@@ -364,6 +365,7 @@ Lemma st_ok_same cfg s s' : st_ftyp s' = st_ftyp s -> st_moov s' = st_moov s -> 
 Proof. intros E1 E2 (H1 & H2). split; [rewrite E1; exact H1 | rewrite E2; exact H2]. Qed.
 
 Definition bound (cfg : config) : N := N.max (max_metadata_size cfg) MAX_FTYP_SIZE.
+Definition fbound (cfg : config) : N := 2 * (max_metadata_size cfg + MAX_FTYP_SIZE + 64).
 
 Lemma no_io_mdat_hdr cfg h :
   no_io (match box_data_size h, cumulative_mdat_box_size cfg with
@@ -373,13 +375,13 @@ Lemma no_io_mdat_hdr cfg h :
 Proof. no_io_walk; apply no_io_overwrite_size. Qed.
 
 Lemma ob_step cfg s : st_ok cfg s ->
-  OB (bound cfg) (stdQ (fun m s' => m = MHead /\ st_ok cfg s')) MIter (step cfg s).
+  OB (bound cfg) (fbound cfg) (stdQ (fun m s' => m = MHead /\ st_ok cfg s')) MIter (step cfg s).
 Proof.
   intros Hs. unfold step.
   apply ob_bind. apply ob_pos_iter. intros start. cbv beta.
   apply ob_bind. apply ob_read_header. intros h m Hb. cbv beta.
   assert (Hfiller :
-    OB (bound cfg) (stdQ (fun m s' => m = MHead /\ st_ok cfg s')) m
+    OB (bound cfg) (fbound cfg) (stdQ (fun m s' => m = MHead /\ st_ok cfg s')) m
        (n <~ skip_box h;; bs <~ lift (add_u64 3 n (encoded_len h));; d <~ lift (extend_if_adjacent (st_data s) start bs);;
         Ret (Ok {| st_ftyp := st_ftyp s; st_moov := st_moov s; st_data := d |}))).
   { apply ob_bind. apply ob_skip_box; [exact Hb|]. intros n. cbv beta. ob_pure. ob_pure.
@@ -412,7 +414,7 @@ Proof.
 Qed.
 
 Lemma ob_loop cfg : forall fuel s, st_ok cfg s ->
-  OB (bound cfg) (stdQ (fun m s' => m = MEnd 0 /\ st_ok cfg s')) MHead (loop fuel cfg s).
+  OB (bound cfg) (fbound cfg) (stdQ (fun m s' => m = MEnd 0 /\ st_ok cfg s')) MHead (loop fuel cfg s).
 Proof.
   induction fuel as [|fuel IH]; intros s Hs; cbn [loop]; [apply ob_ret_fuel|].
   apply ob_bind. apply ob_fill; cbv beta.
@@ -421,16 +423,16 @@ Proof.
     intros m r. destruct r; cbn [stdQ]; auto. intros (-> & Hs'). now apply IH.
 Qed.
 
-Lemma ob_check_end {B} : OB B (stdQ (fun m _ => m = MEnd 2)) (MEnd 0) check_end.
+Lemma ob_check_end {B F} : OB B F (stdQ (fun m _ => m = MEnd 2)) (MEnd 0) check_end.
 Proof.
   unfold check_end. apply ob_bind. apply ob_pos_end. intros pos. cbv beta. apply ob_bind. apply ob_len_end. intros len. cbv beta.
   destruct (len <? pos); [apply ob_ret_parse | apply ob_ret_ok; reflexivity].
 Qed.
 
-(* ---- the epilogue: the part of the returned metadata that is not padding is bounded *)
+(* ---- the epilogue: the returned metadata (padding included) is bounded *)
 Definition md_bounded (cfg : config) (o : out) : Prop :=
   match o_metadata o with
-  | Some (md, _) => N.of_nat (length md) <= max_metadata_size cfg + MAX_FTYP_SIZE + 64
+  | Some (md, z) => N.of_nat (length md) + z <= 2 * (max_metadata_size cfg + MAX_FTYP_SIZE + 64)
   | None => True
   end.
 
@@ -439,6 +441,8 @@ Proof.
   intros Ht. unfold hdr_put. cbn [htype hsize]. rewrite !app_length, Ht.
   destruct sz; rewrite ?length_n2be; cbn [length]; lia.
 Qed.
+Lemma encoded_len_fourcc t sz : encoded_len {| htype := FourCC t; hsize := sz |} <= 16.
+Proof. unfold encoded_len. cbn [htype hsize]. destruct sz; lia. Qed.
 Lemma with_u32_data_size_fourcc t n : exists sz, with_u32_data_size (FourCC t) n = {| htype := FourCC t; hsize := sz |}.
 Proof. unfold with_u32_data_size. destruct (_ <=? _); eexists; reflexivity. Qed.
 Lemma with_data_size_fourcc t n h : with_data_size (FourCC t) n = Ok h -> exists sz, h = {| htype := FourCC t; hsize := sz |}.
@@ -451,7 +455,7 @@ Lemma add_u64_inv site a b x : add_u64 site a b = Ok x -> x = a + b.
 Proof. unfold add_u64. destruct (_ <? _); [discriminate|]. now intros [= <-]. Qed.
 
 Lemma ob_finish cfg s : st_ok cfg s ->
-  OB (bound cfg) (stdQ (fun _ o => md_bounded cfg o)) (MEnd 2) (finish s).
+  OB (bound cfg) (fbound cfg) (stdQ (fun _ o => md_bounded cfg o)) (MEnd 2) (finish s).
 Proof.
   intros (Hs1 & Hs2). unfold finish.
   destruct (st_ftyp s) as [fp|] eqn:Ef; [|apply ob_ret_parse].
@@ -461,28 +465,34 @@ Proof.
   destruct (moov_off <? s_off data); [apply ob_ret_ok; exact Logic.I|].
   apply ob_bind. apply ob_lift; [apply no_io_with_data_size|]. intros fh Hfh. cbv beta zeta.
   apply ob_bind. apply ob_lift; [apply no_io_with_data_size|]. intros mh Hmh. cbv beta.
-  ob_pure. ob_pure. ob_pure.
+  apply ob_bind. apply ob_lift; [apply no_io_add_u64|]. intros flen Hflen. cbv beta.
+  apply ob_bind. apply ob_lift; [apply no_io_add_u64|]. intros mlen Hmlen. cbv beta.
+  apply ob_bind. apply ob_lift; [apply no_io_add_u64|]. intros mdl Hmdl. cbv beta.
+  apply add_u64_inv in Hflen, Hmlen, Hmdl.
   destruct (with_data_size_fourcc _ _ _ Hfh) as (fsz & ->). destruct (with_data_size_fourcc _ _ _ Hmh) as (msz & ->).
   pose proof (hdr_put_fourcc_len t_ftyp fsz eq_refl) as Lf. pose proof (hdr_put_fourcc_len t_moov msz eq_refl) as Lm.
+  pose proof (encoded_len_fourcc t_ftyp fsz) as Ef'. pose proof (encoded_len_fourcc t_moov msz) as Em'.
+  assert (Hmdl' : mdl <= max_metadata_size cfg + MAX_FTYP_SIZE + 32) by lia.
   match goal with |- context [if ?c then _ else _] => destruct c end.
-  { apply ob_bind. apply ob_alloc_end. apply ob_ret_ok. unfold md_bounded. cbn [o_metadata].
+  { apply ob_bind. apply ob_alloc_end; [unfold fbound; lia|]. apply ob_ret_ok. unfold md_bounded. cbn [o_metadata].
     rewrite !app_length. lia. }
-  match goal with |- context [if ?c then _ else _] => destruct c end.
-  { apply ob_bind. apply ob_alloc_end. apply ob_ret_ok. unfold md_bounded. cbn [o_metadata].
-    destruct (with_u32_data_size_fourcc t_free (s_off data - a1 - PAD_HEADER_SIZE)) as (psz & ->).
+  match goal with |- context [if ?c then _ else _] => destruct c eqn:Ec end.
+  { assert (Hgap : s_off data - mdl <= mdl) by lia.
+    apply ob_bind. apply ob_alloc_end; [unfold fbound; lia|]. apply ob_ret_ok. unfold md_bounded. cbn [o_metadata].
+    destruct (with_u32_data_size_fourcc t_free (s_off data - mdl - PAD_HEADER_SIZE)) as (psz & ->).
     pose proof (hdr_put_fourcc_len t_free psz eq_refl) as Lp.
-    rewrite !app_length. lia. }
-  destruct (displacement (s_off data) a1) as [d|]; [|apply ob_ret_parse].
+    rewrite !app_length. unfold PAD_HEADER_SIZE in *. lia. }
+  destruct (displacement (s_off data) mdl) as [d|]; [|apply ob_ret_parse].
   apply ob_bind. apply ob_lift.
   { apply no_io_each_trak. intros n. apply no_io_shift_table; intros v; apply no_io_shift_entry. }
   intros [kids' u] Hk. cbv beta.
-  apply ob_bind. apply ob_alloc_end. apply ob_ret_ok. unfold md_bounded. cbn [o_metadata].
+  apply ob_bind. apply ob_alloc_end; [unfold fbound; lia|]. apply ob_ret_ok. unfold md_bounded. cbn [o_metadata].
   pose proof (each_trak_shift_length _ _ _ _ _ Hk) as Lk.
   rewrite !app_length. lia.
 Qed.
 
 Theorem ob_sanitize cfg fuel :
-  OB (bound cfg) (stdQ (fun _ o => md_bounded cfg o)) MHead (sanitize_prog cfg fuel).
+  OB (bound cfg) (fbound cfg) (stdQ (fun _ o => md_bounded cfg o)) MHead (sanitize_prog cfg fuel).
 Proof.
   unfold sanitize_prog. apply ob_bind. eapply obeys_weaken; [|apply ob_loop; apply st_ok_st0].
   intros m r. destruct r; cbn [stdQ]; auto. intros (-> & Hs).
@@ -495,7 +505,7 @@ Qed.
 Lemma cursor_exact inp lenient ms : answers_valid exact_reads (cursor inp lenient ms).
 Proof.
   intros o s. rewrite cursor_rstep. destruct o as [ |n|n| | |n|n]; cbn [cursor_step exact_reads fst]; auto.
-  destruct (s + n <=? ilen inp); cbn [fst]; [|exact Logic.I]. rewrite length_iread. apply N2Nat.id.
+  destruct ((n =? 0) || (s + n <=? ilen inp)); cbn [fst]; [|exact Logic.I]. rewrite length_iread. apply N2Nat.id.
 Qed.
 
 (* how the ideal cursor can fail *)
@@ -519,14 +529,14 @@ Definition cur_inv (inp : input) (lenient : bool) (ms B : N) (m : mstate) (pos :
   | _ => True
   end.
 
-Definition step_props (inp : input) (B : N) (m : mstate) (pos : N) (o : op) (a : resp) : Prop :=
-  read_confined B m pos o a /\ alloc_bounded B m pos o a /\ (match o with OSkip _ => pos <= ilen inp | _ => True end).
+Definition step_props (inp : input) (B F : N) (m : mstate) (pos : N) (o : op) (a : resp) : Prop :=
+  read_confined B m pos o a /\ alloc_bounded B F m pos o a /\ (match o with OSkip _ => pos <= ilen inp | _ => True end).
 
 Lemma hdr_read_ok_le got n : hdr_read_ok got n = true -> got + n <= 32.
 Proof. unfold hdr_read_ok. lia. Qed.
 
-Lemma cursor_step_invariant inp lenient ms B :
-  step_invariant (mp4_mstep B) (cursor inp lenient ms) (cur_inv inp lenient ms B) (step_props inp B).
+Lemma cursor_step_invariant inp lenient ms B F :
+  step_invariant (mp4_mstep B F) (cursor inp lenient ms) (cur_inv inp lenient ms B) (step_props inp B F).
 Proof.
   intros m pos o m' HI Hs. rewrite cursor_rstep in *. change (rst (cursor inp lenient ms)) with N in *.
   unfold step_props, read_confined, alloc_bounded.
@@ -542,7 +552,9 @@ Proof.
     destruct o as [ |n|n| | |n|n].
     + destruct (N.leb_spec 8 got); discriminate.
     + destruct (hdr_read_ok got n) eqn:Eok; [|discriminate]. pose proof (hdr_read_ok_le _ _ Eok).
-      cbn [cursor_step] in *. destruct (N.leb_spec (pos + n) (ilen inp)); cbn [fst snd on_bytes] in *; injection Hs as <-.
+      assert (Hn0 : (n =? 0) = false) by (unfold hdr_read_ok in Eok; lia).
+      cbn [cursor_step] in *. rewrite Hn0 in *. cbn [orb] in *.
+      destruct (N.leb_spec (pos + n) (ilen inp)); cbn [fst snd on_bytes] in *; injection Hs as <-.
       * split; [|cbn [cur_inv]; lia]. repeat split; auto. left. exists start, got. auto.
       * split; [|cbn [cur_inv cursor_fails]; auto]. repeat split; auto. left. exists start, got. auto.
     + destruct (N.leb_spec 8 got); [|discriminate]. cbn [body_step cursor_step] in *.
@@ -575,47 +587,54 @@ Proof.
   - (* MAlloc *)
     destruct HI as (Hle & Hk).
     destruct o as [ |n|n| | |n|n]; try discriminate. destruct (N.eqb_spec n k) as [->|]; [|discriminate].
-    cbn [cursor_step] in *. destruct (N.leb_spec (pos + k) (ilen inp)); cbn [fst snd on_bytes] in *; injection Hs as <-;
+    cbn [cursor_step] in *. destruct ((k =? 0) || (pos + k <=? ilen inp)); cbn [fst snd on_bytes] in *; injection Hs as <-;
       repeat split; auto; right; split; auto.
   - (* MEnd *)
     destruct o as [ |n|n| | |n|n]; try discriminate.
     + destruct (k =? 0); [|discriminate]. cbn [cursor_step fst snd on_num] in *. injection Hs as <-. repeat split; auto.
     + destruct (k =? 1); [|discriminate]. cbn [cursor_step fst snd on_num] in *. injection Hs as <-. repeat split; auto.
-    + destruct (N.eqb_spec k 2) as [->|]; [|discriminate]. cbn [cursor_step fst snd] in *. injection Hs as <-.
-      repeat split; auto.
+    + destruct (N.eqb_spec k 2) as [->|]; [|discriminate]. cbn [andb] in Hs. destruct (N.leb_spec n F); [|discriminate].
+      cbn [cursor_step fst snd] in *. injection Hs as <-. repeat split; auto.
 Qed.
 
 (* C10: every step of every run on the ideal cursor *)
 Theorem sanitize_steps cfg fuel inp lenient ms :
-  all_steps (mp4_mstep (bound cfg)) (cursor inp lenient ms) (step_props inp (bound cfg)) (sanitize_prog cfg fuel) 0 MHead.
+  all_steps (mp4_mstep (bound cfg) (fbound cfg)) (cursor inp lenient ms) (step_props inp (bound cfg) (fbound cfg)) (sanitize_prog cfg fuel) 0 MHead.
 Proof.
   eapply obeys_steps; [apply ob_sanitize | apply cursor_exact | apply cursor_step_invariant | exact Logic.I].
 Qed.
 
 Theorem reads_confined cfg fuel inp lenient ms :
-  all_steps (mp4_mstep (bound cfg)) (cursor inp lenient ms) (read_confined (bound cfg)) (sanitize_prog cfg fuel) 0 MHead.
+  all_steps (mp4_mstep (bound cfg) (fbound cfg)) (cursor inp lenient ms) (read_confined (bound cfg)) (sanitize_prog cfg fuel) 0 MHead.
 Proof. eapply all_steps_weaken; [|apply sanitize_steps]. intros m s o a H. apply H. Qed.
 
 Theorem allocs_bounded cfg fuel inp lenient ms :
-  all_steps (mp4_mstep (bound cfg)) (cursor inp lenient ms) (alloc_bounded (bound cfg)) (sanitize_prog cfg fuel) 0 MHead.
+  all_steps (mp4_mstep (bound cfg) (fbound cfg)) (cursor inp lenient ms) (alloc_bounded (bound cfg) (fbound cfg)) (sanitize_prog cfg fuel) 0 MHead.
 Proof. eapply all_steps_weaken; [|apply sanitize_steps]. intros m s o a H. apply H. Qed.
 
 (* the monitor accepts the run over ANY reader whose read_exact answers have the length asked for *)
 Theorem sanitize_monitored cfg fuel (R : reader) : answers_valid exact_reads R ->
-  forall s, all_steps (mp4_mstep (bound cfg)) R (fun _ _ _ _ => True) (sanitize_prog cfg fuel) s MHead.
+  forall s, all_steps (mp4_mstep (bound cfg) (fbound cfg)) R (fun _ _ _ _ => True) (sanitize_prog cfg fuel) s MHead.
 Proof.
   intros HV s. eapply (obeys_steps _ _ _ _ _ (ob_sanitize cfg fuel) R HV (fun _ _ => True)); [|exact Logic.I].
   intros m s' o m' _ _. auto.
 Qed.
 
-(* C10: the non-padding part of the returned metadata *)
-Theorem metadata_nonpad_bounded cfg fuel inp lenient ms o :
+(* C10: the returned metadata, padding included *)
+Theorem metadata_bounded cfg fuel inp lenient ms o :
   mp4_sanitize cfg lenient ms inp fuel = Ok o -> md_bounded cfg o.
 Proof.
   unfold mp4_sanitize. intros H.
   destruct (obeys_final _ _ _ _ _ (ob_sanitize cfg fuel) _ (cursor_exact inp lenient ms) 0) as (m' & _ & HQ).
   rewrite H in HQ. exact HQ.
 Qed.
+
+Theorem metadata_size_bounded : forall (cfg : config) (fuel : nat) (inp : input) (lenient : bool) (max_seek : N)
+                                       (md : bytes) (z : N) (sp : span),
+  mp4_sanitize cfg lenient max_seek inp fuel = Ok {| o_metadata := Some (md, z); o_data := sp |} ->
+  N.of_nat (length md) + z <= 2 * (max_metadata_size cfg + 1024 + 64).
+Proof. intros cfg fuel inp lenient ms md z sp H. exact (metadata_bounded cfg fuel inp lenient ms _ H). Qed.
+
 
 (* C13: no spurious Io on the ideal cursor *)
 Theorem no_spurious_io cfg fuel inp lenient ms e :
@@ -626,7 +645,7 @@ Theorem no_spurious_io cfg fuel inp lenient ms e :
 Proof.
   unfold mp4_sanitize. intros H.
   destruct (obeys_final_inv _ _ _ _ _ (ob_sanitize cfg fuel) _ (cursor_exact inp lenient ms) _ _
-              (cursor_step_invariant inp lenient ms (bound cfg)) 0 Logic.I) as (m' & _ & HI & HQ).
+              (cursor_step_invariant inp lenient ms (bound cfg) (fbound cfg)) 0 Logic.I) as (m' & _ & HI & HQ).
   rewrite H in HQ. cbn [stdQ io_only_from_reader] in HQ. destruct HQ as (o & -> & Hplain).
   cbn [cur_inv] in HI. unfold cursor_fails in HI.
   destruct o as [ |n|n| | |n|n]; try (now destruct HI).
@@ -662,8 +681,9 @@ Proof.
 Qed.
 
 (* ================================================================================================ *)
-(* finding D6: the padding box makes the returned metadata as large as the gap before the media, whatever the limit.
-   Witness: ftyp (20 bytes), a free box declaring 2^20 bytes, mdat, moov (60 bytes); max_metadata_size = 4096. *)
+(* a sample sparse input (the witness of the former finding D6, repaired in /repo by 3c176e3: the padding box is now
+   bounded by the metadata length): ftyp (20 bytes), a free box declaring 2^20 bytes, mdat, moov (60 bytes);
+   max_metadata_size = 4096.  The gap is larger than the metadata, so the chunk offsets are displaced instead. *)
 Definition d6_cfg : config := {| max_metadata_size := 4096; cumulative_mdat_box_size := None |}.
 Definition d6_input : input :=
   input_of_exts 1048667
@@ -673,14 +693,6 @@ Definition d6_input : input :=
                 x00; x00; x00; x3c; x6d; x6f; x6f; x76; x00; x00; x00; x34; x74; x72; x61; x6b; x00; x00; x00; x2c; x6d; x64; x69; x61;
                 x00; x00; x00; x24; x6d; x69; x6e; x66; x00; x00; x00; x1c; x73; x74; x62; x6c; x00; x00; x00; x14; x73; x74; x63; x6f;
                 x00; x00; x00; x00; x00; x00; x00; x01; x00; x10; x00; x18])].
-
-Theorem metadata_size_refuted :
-  exists (cfg : config) (inp : input) (fuel : nat) (md : bytes) (z : N) (sp : span),
-    mp4_sanitize cfg true U64MAX' inp fuel = Ok {| o_metadata := Some (md, z); o_data := sp |} /\
-    2 * (max_metadata_size cfg + 1024 + 64) < N.of_nat (length md) + z.
-Proof.
-  exists d6_cfg, d6_input, 10%nat. eexists. eexists. eexists. split; [vm_compute; reflexivity | vm_compute; reflexivity].
-Qed.
 
 (* ---- non-vacuity of the hypotheses used above *)
 Example no_spurious_io_example :
@@ -696,9 +708,10 @@ Example media_noninterference_example :
               q <= 1048605 < q + covered d6_input true U64MAX' (OSkip n) q.
 Proof. exists 3, 1048604. vm_compute. split; [tauto | split; [discriminate | reflexivity]]. Qed.
 
-Example metadata_nonpad_example :
-  exists o, mp4_sanitize d6_cfg true U64MAX' d6_input 10 = Ok o /\ md_bounded d6_cfg o.
-Proof. eexists. split; [vm_compute; reflexivity|]. vm_compute. discriminate. Qed.
+Example metadata_bounded_example :
+  exists md z sp, mp4_sanitize d6_cfg true U64MAX' d6_input 10 = Ok {| o_metadata := Some (md, z); o_data := sp |} /\
+                  N.of_nat (length md) + z = 80.
+Proof. eexists. eexists. eexists. split; vm_compute; reflexivity. Qed.
 
 (* ================================================================================================ *)
 (* the statements of Props/C13.v, spelled out *)
